@@ -18,6 +18,7 @@
 #include <stdio.h>
 #include <stdlib.h>
 
+#include <algorithm>
 #include <charconv>
 #include <memory>
 #include <vector>
@@ -388,9 +389,16 @@ bool ManifestParser::ParseEdge(string* err) {
     // build graph but that has since been fixed.  Filter them out to
     // support users of those old CMake versions.
     Node* out = edge->outputs_[0];
+    // Count the self-references among the order-only inputs first: remove()
+    // reorders the vector.
+    const int order_only_self = static_cast<int>(
+        std::count(edge->inputs_.end() - edge->order_only_deps_,
+                   edge->inputs_.end(), out));
     vector<Node*>::iterator new_end =
         remove(edge->inputs_.begin(), edge->inputs_.end(), out);
     if (new_end != edge->inputs_.end()) {
+      // Keep the order-only count in sync with what is being removed.
+      edge->order_only_deps_ -= order_only_self;
       edge->inputs_.erase(new_end, edge->inputs_.end());
       if (!quiet_) {
         Warning("phony target '%s' names itself as an input; "
